@@ -137,6 +137,10 @@ func checkC19(c CLICase) Verdict {
 		dst := filepath.Join(dir, "p-dst.bin")
 		os.WriteFile(in, []byte(c.Src), 0o644)
 		os.Remove(dst)
+		if c.Prefill > 0 {
+			// the destination already exists and is longer than any image generated here
+			os.WriteFile(dst, bytes.Repeat([]byte{0xde, 0xad, 0xbe, 0xef}, c.Prefill/4+1), 0o644)
+		}
 		args := []string{in, dst}
 		if c.Debug {
 			args = append([]string{"-d"}, args...)
@@ -319,7 +323,7 @@ var propC19 = &Prop[CLICase]{
 			if rapid.IntRange(0, 5).Draw(t, "breakit") == 0 {
 				src += rapid.SampledFrom(failingSrcs).Draw(t, "broken")
 			}
-			return CLICase{Kind: "prog", Src: src, Debug: rapid.IntRange(0, 4).Draw(t, "debug") == 0}
+			return CLICase{Kind: "prog", Src: src, Debug: rapid.IntRange(0, 4).Draw(t, "debug") == 0, Prefill: rapid.SampledFrom([]int{0, 0, 70000, 200000}).Draw(t, "pprefill")}
 		case 6, 7, 8:
 			p := genLabelProg(t, rapid.SampledFrom([]int{0, 16, 32}).Draw(t, "mode"), rapid.SampledFrom(orgSet).Draw(t, "org"), false)
 			src := p.Source()
